@@ -41,7 +41,7 @@ InRegion(key, st) ==
 -----------------------------------------------------------------------------
 (* DESIGN: per-atom inference (optimizeEqualExpr, optimizeGtGteExpr, ...)  *)
 
-LitOf(e)   == LET l == e.a[1]  r == e.a[2] IN
+KeyLitOf(e)   == LET l == e.a[1]  r == e.a[2] IN
               IF r.k = "str" THEN r.s ELSE IF l.k = "str" THEN l.s ELSE NIL
 FieldOf(e) == LET l == e.a[1]  r == e.a[2] IN
               IF r.k \in {"key", "val"} THEN r.k ELSE IF l.k \in {"key", "val"} THEN l.k ELSE "val"
@@ -61,7 +61,7 @@ UpTo(lit, incl) == IF lit = <<>> THEN (IF incl THEN MGET(<<lit>>) ELSE EMPTY) EL
 AtomST(e) ==
   IF e.k = "bool" THEN (IF e.n = 1 THEN FULL ELSE EMPTY)
   ELSE IF e.k # "bin" THEN FULL
-  ELSE LET lit == LitOf(e)  fld == FieldOf(e)
+  ELSE LET lit == KeyLitOf(e)  fld == FieldOf(e)
            pinned == fld = "key" /\ lit # NIL
            mirrored == ~Bug_LiteralLeft /\ ~KeyOnLeft(e)     \* 'lit' op key
        IN CASE e.op = "="  -> IF pinned THEN MGET(<<lit>>) ELSE FULL
